@@ -67,8 +67,9 @@ def oracle(ctx, extra):
     n = 0
     seen = set()
     for i in range(ctx.n(2500, 50000)):
-        tree = canon.gen_blocks(r, 0, plain=True)
-        # plain trees, but with emphasis / links / images / code spans of plain words
+        # text of plain words; every second tree with inline structure around it (emphasis, strong, code spans, links with
+        # titles and with destinations that need the pointy form, images, autolinks, soft and hard breaks)
+        tree = canon.gen_blocks(r, 0, plain=(True if i % 2 else "words"))
         check_tree(m, r, tree, fails, with_refs=(i % 3 == 0))
         n += 1
         seen.add(json.dumps(tree))
